@@ -55,6 +55,7 @@ Undef == [val |-> "undef", ts |-> 0, err |-> NoErr]
 
 ValueActions == {"update", "reply", "changed"}
 ErrorActions == {"error_update", "error_read"}
+ReplyOnlyActions == {"error_change"}    \* error reply to a change request: answers the caller, never touches the cache
 W0 == CHOOSE w \in Wires : TRUE
 E0 == CHOOSE e \in ENames : TRUE
 X0 == CHOOSE x \in Texts : TRUE
@@ -67,6 +68,7 @@ Msgs ==
   \cup [action : ValueActions, ident : Idents, shape : BadShapes, w : {W0}, t : {NoT}, en : {E0}, tx : {X0}]
   \cup [action : ErrorActions, ident : Idents, shape : GoodShapes, w : {W0}, t : Stamps, en : ENames, tx : Texts]
   \cup [action : ErrorActions, ident : Idents, shape : BadShapes, w : {W0}, t : {NoT}, en : {E0}, tx : {X0}]
+  \cup [action : ReplyOnlyActions, ident : Idents, shape : {"ok"}, w : {W0}, t : {NoT}, en : ENames, tx : Texts]
 
 Levels == (IF "node" \in LevelKinds THEN {NodeL} ELSE {})
           \cup (IF "module" \in LevelKinds THEN {<<m, "">> : m \in Mods} ELSE {})
@@ -93,7 +95,8 @@ Resolve(a, id, d) ==
        IN IF k \in d THEN k ELSE NoKey
 
 IsValue(msg) == msg.action \in ValueActions
-Handled(msg, d) == /\ Resolve(msg.action, msg.ident, d) # NoKey
+Handled(msg, d) == /\ msg.action \notin ReplyOnlyActions
+                   /\ Resolve(msg.action, msg.ident, d) # NoKey
                    /\ msg.shape \in {"ok", "okq"}
                    /\ IsValue(msg) => msg.w \in ValidW
 
@@ -113,11 +116,11 @@ Matches(c, k) == /\ c.kind # "handleError"
                     \/ c.level = k
 
 RKey(msg) == IF msg.action \in {"reply", "error_read"} THEN <<"reply", msg.ident>>
-             ELSE IF msg.action = "changed" THEN <<"changed", msg.ident>> ELSE NoReq
+             ELSE IF msg.action \in {"changed", "error_change"} THEN <<"changed", msg.ident>> ELSE NoReq
 IsCmd(id, d) == id[2] \in CmdP /\ \E k \in d : k[1] = id[1]
 RelAllowed(msg, d, w) ==
   IF RKey(msg) \notin w THEN {FALSE}
-  ELSE IF Handled(msg, d) THEN {TRUE}
+  ELSE IF Handled(msg, d) \/ msg.action \in ReplyOnlyActions THEN {TRUE}
   ELSE IF Resolve(msg.action, msg.ident, d) = NoKey /\ ~IsCmd(msg.ident, d) THEN {TRUE}
   ELSE BOOLEAN       \* malformed reply / reply naming a command while a request waits: not decided here
 
